@@ -91,5 +91,11 @@ from .C02 import AsyncScope as _AsyncScope, SyncScope as _SyncScope, StateBlock 
 # itself, for its whole life")
 _c03 = lambda n: n.startswith("C01-P6") or "StateContext-variable-is-what-it-was" in n      # noqa: E731
 
-CONTRACTS = [FrameAudit(), variant(Run, "C03", P), variant(Spawn, "C03", P), variant(Lookup, "C03", P), variant(Updated, "C03", P),
+# "sees ... the state that was visible where it was started plus whatever scopes it enters itself": *what* a task sees in the
+# scope state it holds is decided by the three functions of ScopeState - all of their clauses carry C03 (a seed that keyed the
+# dict by class name instead of class kept every isolation clause true and still showed a task another type's instance)
+from .C01 import Init as _Init      # noqa: E402
+ALL = ("",)
+CONTRACTS = [FrameAudit(), variant(Run, "C03", P), variant(Spawn, "C03", P), variant(Lookup, "C03", ALL), variant(Updated, "C03", ALL),
+             variant(_Init, "C03", ALL),
              variant(_AsyncScope, "C03", _c03), variant(_SyncScope, "C03", _c03), variant(_StateBlock, "C03", _c03)]
